@@ -2,10 +2,10 @@ THEOREMS = ["Lbfgsb.C02.evals_in_box", "Lbfgsb.C02.fixed_never_move", "Lbfgsb.C0
 MODULES = ["LbfgsbVerif.Props.C02", "LbfgsbVerif.Props.C02Bounds", "LbfgsbVerif.Props.Kernels"]
 MONITORS = ["C02"]
 N_QUICK, N_THOROUGH = 400, 4000
-COMMON = {}
+COMMON = {"zero_bounds": True}
 ASSUMPTIONS = ["objectives finite-valued on the box (no NaN)", "SciPy approx_derivative keeps its stencil inside the bounds it is given (monitored on every call)"]
 RULE = ("random runs: convex and non-convex families and the package's benchmarks, all box kinds (bounds with non-representable "
-        "values), all gradient modes, random maxcor/maxls/maxiter/maxfun; every point received by fun/jac/callback and the result "
+        "values, a quarter of the finite bounds exactly zero), all gradient modes, random maxcor/maxls/maxiter/maxfun; every point received by fun/jac/callback and the result "
         "is tested with exact comparisons; non-trivial = at least one iteration performed; plus calls of get_bounds on generated valid and "
         "malformed inputs (None entries, equal/reversed/NaN/infinite bounds, wrong lengths, empty start, start outside by one ulp), each "
         "compared with the Lean model of the validation (accept/reject, error kind, arrays bit for bit)")
